@@ -101,11 +101,11 @@ def _shuffled(y, rng):
 
 Y_MALFORMS = ["y_unsorted", "y_decreasing_range", "y_empty", "y_frame", "y_frame_one_column",
               "y_ndarray", "y_list"]
-X_MALFORMS = ["X_shifted", "X_shorter", "X_unsorted", "X_ndarray"]
+X_MALFORMS = ["X_shifted", "X_shorter", "X_longer", "X_unsorted", "X_ndarray"]
 FH_MALFORMS = ["fh_dup", "fh_dup_array", "fh_dup_index", "fh_empty", "fh_empty_index",
                "fh_empty_object",
                "fh_frac_list", "fh_frac_array", "fh_frac_scalar", "fh_str", "fh_dict", "fh_nested"]
-INT_MALFORMS = ["zero", "negative", "fractional", "string", "bool"]
+INT_MALFORMS = ["zero", "negative", "fractional", "string", "bool", "list"]
 
 
 def malform_y(kind, y, rng):
@@ -134,6 +134,14 @@ def malform_X(kind, X, rng):
         return X2
     if kind == "X_shorter":
         return X.iloc[:-1]
+    if kind == "X_longer":
+        # every time point of y is there, plus extra rows before the start / after the end
+        extra = X.iloc[:2].copy()
+        if rng.random() < 0.5:
+            extra.index = X.index[:2] - 2
+            return pd.concat([extra, X])
+        extra.index = X.index[-2:] + 2
+        return pd.concat([X, extra])
     if kind == "X_unsorted":
         return _shuffled(X, rng)
     if kind == "X_ndarray":
@@ -172,7 +180,7 @@ def malform_fh(kind, steps):
 
 def malform_int(kind, valid):
     return {"zero": 0, "negative": -valid, "fractional": valid + 0.5, "string": str(valid),
-            "bool": True}[kind]
+            "bool": True, "list": [valid]}[kind]
 
 
 # ------------------------------------------------------------------ cells
@@ -394,6 +402,14 @@ def _register_fh_cells():
         return dict(control=lambda: C.build(spec).fit(ctx.y_train, fh=list(ctx.steps)), faulty=faulty,
                     fresh=lambda: holder.get("f"), sig={"forecaster": _k(spec)})
     cell("fit/fh_missing_required", "missing_or_different_fh", "entry_forecaster")(missing_fit)
+
+    def missing_fit_again(ctx):
+        spec = ctx.forecaster(["reduce_dir", "reduce_multi", "reduce_dirrec", "stack"])
+        f = C.build(spec).fit(ctx.y_train, fh=list(ctx.steps))
+        g = C.build(spec).fit(ctx.y_train, fh=list(ctx.steps))
+        return dict(control=lambda: g.fit(ctx.y_train, fh=list(ctx.steps)),
+                    faulty=lambda: f.fit(ctx.y_train.iloc[:-1]), sig={"forecaster": _k(spec)})
+    cell("fit/fh_missing_required_on_second_fit", "missing_or_different_fh", "entry_forecaster")(missing_fit_again)
 
     def different(ctx):
         spec = ctx.forecaster(["reduce_dir", "reduce_multi", "reduce_dirrec", "stack"])
